@@ -63,20 +63,33 @@ def main():
         return 2
     try:
         env = dict(os.environ, PYTHONPATH=("%s:%s" % (wt, FAKE)) if pid == "C19" else wt)
-        # pristine copy for the differential test, where the agent's script expects it
-        os.makedirs(os.path.join(wt, "_refactor", "orig"), exist_ok=True)
-        shutil.copytree(os.path.join(wt, "sempler"), os.path.join(wt, "_refactor", "orig", "sempler_orig_pkg"))
+        # pristine copy for the differential test, where the agent's script expects it: the agent's own `orig` directory when it is there (it may hold
+        # more than the package copy: a package root with symlinks, a copy of drf/), otherwise a fresh copy of the package
+        refdir = os.path.basename(os.path.dirname(os.path.normpath(src)))            # _refactor / _refactor2
+        agent_orig = os.path.join(os.path.dirname(os.path.normpath(src)), "orig")
+        os.makedirs(os.path.join(wt, refdir), exist_ok=True)
+        if os.path.isdir(agent_orig):
+            shutil.copytree(agent_orig, os.path.join(wt, refdir, "orig"), symlinks=True)
+        else:
+            os.makedirs(os.path.join(wt, refdir, "orig"), exist_ok=True)
+            shutil.copytree(os.path.join(wt, "sempler"), os.path.join(wt, refdir, "orig", "sempler_orig_pkg"))
         rc, out = sh("git -C %s apply --check %s && git -C %s apply %s" % (wt, patch, wt, patch))
         meta["applies"] = rc == 0
         if rc:
             print("patch does not apply:", out)
             return 2
         k = os.path.basename(os.path.normpath(src))
-        os.makedirs(os.path.join(wt, "_refactor", k), exist_ok=True)
-        txt = open(equiv).read().replace("/tmp/wt_%s" % pid, wt)
-        run = os.path.join(wt, "_refactor", k, "equiv.py")
-        with open(run, "w") as fh:
-            fh.write(txt)
+        # the agent's directory for this change (helper modules next to equiv.py included), with its absolute paths pointed at the scratch worktree
+        shutil.copytree(src, os.path.join(wt, refdir, k), symlinks=True, ignore=shutil.ignore_patterns("*.pkl", "__pycache__", "*.log"))
+        for root_, _, files_ in os.walk(os.path.join(wt, refdir)):
+            for fn_ in files_:
+                if fn_.endswith(".py") and not os.path.islink(os.path.join(root_, fn_)) and "sempler_orig_pkg" not in root_:
+                    pth_ = os.path.join(root_, fn_)
+                    t_ = open(pth_).read()
+                    if "/tmp/wt_%s" % pid in t_:
+                        with open(pth_, "w") as fh:
+                            fh.write(t_.replace("/tmp/wt_%s" % pid, wt))
+        run = os.path.join(wt, refdir, k, "equiv.py")
         rc_e, out_e = sh("%s %s" % (PY, run), cwd=wt, env=env, timeout=1800)
         meta["equivalence_test_passes"] = rc_e == 0
         meta["equivalence_output"] = out_e[-500:]
